@@ -15,6 +15,7 @@ import (
 	"go/constant"
 	"go/parser"
 	"go/token"
+	"math/big"
 	"os"
 	"path/filepath"
 	"sort"
@@ -684,38 +685,52 @@ func readTable(path string, sep int) [][]string {
 
 func genNameTables(out, repo string, names *pkgInfo) {
 	dir := filepath.Join(repo, "type1/names/agl-aglfn")
+	// name tables: (name packed into a natural number, code points), sorted by the packed
+	// key so that "no duplicate keys" is a check of adjacent entries
 	emit := func(lean, file string, rows [][2]string) {
 		lf := newLean(lean)
-		lf.printf("/-- entries of %s as (name, code points), in file order -/\n", file)
-		// split into chunks so that no single term is too deep for the elaborator
+		lf.printf("/-- entries of %s as (packed name, code points), sorted by packed name.\nA name is packed as the base-256 number of its bytes with a leading 1. -/\n", file)
+		type ent struct {
+			key *big.Int
+			cps string
+		}
+		var ents []ent
+		for _, r := range rows {
+			var cps []string
+			for _, w := range strings.Fields(r[1]) {
+				c, err := strconv.ParseUint(w, 16, 32)
+				if err != nil {
+					c = 0
+				}
+				cps = append(cps, strconv.FormatUint(c, 10))
+			}
+			k := big.NewInt(1)
+			for i := 0; i < len(r[0]); i++ {
+				k.Mul(k, big.NewInt(256))
+				k.Add(k, big.NewInt(int64(r[0][i])))
+			}
+			ents = append(ents, ent{k, "[" + strings.Join(cps, ", ") + "]"})
+		}
+		sort.SliceStable(ents, func(i, j int) bool { return ents[i].key.Cmp(ents[j].key) < 0 })
 		const chunk = 64
 		n := 0
-		for i := 0; i < len(rows); i += chunk {
+		for i := 0; i < len(ents); i += chunk {
 			j := i + chunk
-			if j > len(rows) {
-				j = len(rows)
+			if j > len(ents) {
+				j = len(ents)
 			}
-			lf.printf("def part%d : List (String × List Nat) := [\n", n)
+			lf.printf("def part%d : List (Nat × List Nat) := [\n", n)
 			for k := i; k < j; k++ {
-				var cps []string
-				for _, w := range strings.Fields(rows[k][1]) {
-					c, err := strconv.ParseUint(w, 16, 32)
-					if err != nil {
-						c = 0
-					}
-					cps = append(cps, strconv.FormatUint(c, 10))
-				}
 				sep := ","
 				if k == j-1 {
 					sep = ""
 				}
-				lf.printf("  (%s, [%s])%s\n", leanStr(rows[k][0]), strings.Join(cps, ", "), sep)
+				lf.printf("  (%s, %s)%s\n", ents[k].key.String(), ents[k].cps, sep)
 			}
 			lf.printf("]\n")
 			n++
 		}
-		lf.printf("def numParts : Nat := %d\n", n)
-		lf.printf("def parts : List (List (String × List Nat)) := [")
+		lf.printf("def parts : List (List (Nat × List Nat)) := [")
 		for i := 0; i < n; i++ {
 			if i > 0 {
 				lf.printf(", ")
@@ -723,7 +738,7 @@ func genNameTables(out, repo string, names *pkgInfo) {
 			lf.printf("part%d", i)
 		}
 		lf.printf("]\n")
-		lf.printf("def numEntries : Nat := %d\n", len(rows))
+		lf.printf("def numEntries : Nat := %d\n", len(ents))
 		lf.write(out)
 	}
 	var gl [][2]string
@@ -740,13 +755,29 @@ func genNameTables(out, repo string, names *pkgInfo) {
 		}
 	}
 	emit("Dingbats", "zapfdingbats.txt", zd)
-	var ag [][2]string
-	for _, r := range readTable(filepath.Join(dir, "aglfn.txt"), 3) {
-		if len(r) >= 2 {
-			ag = append(ag, [2]string{r[1], r[0]})
+	// aglfn: code point -> name bytes, in file order (later entries win in the Go map)
+	{
+		lf := newLean("Aglfn")
+		lf.printf("/-- entries of aglfn.txt as (code point, bytes of the glyph name), in file order -/\ndef entries : List (Nat × List Nat) := [\n")
+		rows := readTable(filepath.Join(dir, "aglfn.txt"), 3)
+		for i, r := range rows {
+			if len(r) < 2 {
+				continue
+			}
+			c, _ := strconv.ParseUint(r[0], 16, 32)
+			var bs []string
+			for k := 0; k < len(r[1]); k++ {
+				bs = append(bs, strconv.Itoa(int(r[1][k])))
+			}
+			sep := ","
+			if i == len(rows)-1 {
+				sep = ""
+			}
+			lf.printf("  (%d, [%s])%s\n", c, strings.Join(bs, ", "), sep)
 		}
+		lf.printf("]\n")
+		lf.write(out)
 	}
-	emit("Aglfn", "aglfn.txt", ag)
 
 	// compat table from compat.go
 	lf := newLean("Compat")
